@@ -40,6 +40,10 @@ func (h *Histogram) Add(r *Result) {
 func (h *Histogram) MarshalJSON() ([]byte, error) {
 	var buf bytes.Buffer
 
+	if len(h.Counts) != len(h.Buckets) {
+		h.Counts = make([]uint64, len(h.Buckets))
+	}
+
 	// Custom marshalling to guarantee order.
 	buf.WriteString("{")
 	for i := range h.Buckets {
